@@ -404,9 +404,19 @@ def estimate_work(text):
         else:
             m2 = re.search(r"\d{2,}", part)
             if m2:
-                years.append(int(m2.group(0)[:7]))
+                run = m2.group(0)[:7]
+                mag = int(run)
+                signed = part[:1] in "+-"
+                if len(run) <= 2 or signed:
+                    mag *= 100      # CC / +-XCC forms count centuries
+                years.append((mag, signed))
     if len(years) >= 2:
-        days = max(days, abs(years[0] - years[1]) * 366 + 366)
+        (y1, s1), (y2, s2) = years[0], years[1]
+        if s1 or s2:
+            span = y1 + y2          # worst case: opposite signs
+        else:
+            span = abs(y1 - y2)
+        days = max(days, span * 366 + 366)
     return reps * max(days, 1)
 
 
